@@ -337,8 +337,53 @@ def impl(case):
         except Exception as e:
             probs.append('running %s/%d raised %s: %s' % (name, ar, type(e).__name__, str(e)[:60]))
     probs += _hostile_queries(yp, keys)
+    probs += _debug_output_problems(source, text, keys, atoms, nums)
     out['problems'] = probs[:12]
     return out
+
+class DebugCtx(E.Ctx):
+    debug_filename = True
+    debug_parser = True
+    debug_generator = True
+    current_source_file = 'hostile.pl'
+
+def _debug_output_problems(source, text, keys, atoms, nums):
+    """the same source compiled with every debug option on: the debug text (which prints source atoms) may only add
+    comment lines - as Python reads lines - so the module still consists of the same definitions and nothing else"""
+    from yldprolog import compiler, engine
+    if any(0xD800 <= ord(ch) <= 0xDFFF for ch in source):
+        # a lone surrogate cannot be read from or written to a UTF-8 file; in code it is repr-escaped (checked above),
+        # in a debug comment it would appear raw: such a debug text has no file form, nothing to check
+        return []
+    class Ctx2(DebugCtx):
+        outf = io.StringIO()
+    try:
+        # yldpc writes the debug messages to the output stream while it compiles, then the code
+        code = compiler.compile_prolog_from_string(source, Ctx2)
+        dtext = Ctx2.outf.getvalue() + code
+    except RecursionError:
+        return []
+    except Exception as e:
+        return ['with debug options on the compiler raised %s although it accepts the source without them' % type(e).__name__]
+    probs = []
+    try:
+        m1 = pyast.dump(pyast.parse(text)); m2 = pyast.dump(pyast.parse(dtext))
+    except Exception as e:
+        return ['with debug options on the output is not parsable Python: %s' % type(e).__name__]
+    if m1 != m2:
+        probs.append('with debug options on the output is a different Python module (something other than comments was added)')
+    yp = engine.YP()
+    before = set(yp.eval_context)
+    try:
+        yp.load_script_from_string(dtext)
+    except Exception as e:
+        return probs + ['loading the debug output raised %s' % type(e).__name__]
+    want = {'%s_%d' % (k[0], k[1]) for k in keys}
+    if not (set(yp.eval_context) - before) <= want:
+        probs.append('loading the debug output added names %r that are not head keys' % sorted(set(yp.eval_context) - before - want)[:5])
+    if os.environ.get(CANARY):
+        probs.append('loading the debug output touched the canary')
+    return probs
 
 def compare(case, io, mo):
     return E.compare_verdicts(io['source'], io['verdict'], io.get('text'), mo)
